@@ -28,7 +28,7 @@ def setup():
 
 
 def decode_fc(i):
-    return {"minq": 30 if i & 8 else 20, "kd": bool(i & 4), "kq": bool(i & 2), "ks": bool(i & 1)}
+    return {"minq": (0, 20, 30)[i >> 3], "kd": bool(i & 4), "kq": bool(i & 2), "ks": bool(i & 1)}
 
 
 def parse_records(text):
